@@ -61,7 +61,7 @@ func runC02(e *Env) {
 	r.Rule("C02.R2", "bounds+paths", "loops over wire data make progress", 3)
 	r.Rule("C02.R3", "absint", "no wrap / lossy conversion / out-of-range access in the stream header parser for any buffer of length 0…16; option number overflow is rejected", 18)
 	r.Rule("C02.R4", "bounds+flows", "decoders only accept what the encoders can re-encode (token ≤ 8 bytes); option numbers accumulate over every parsed option", 4)
-	r.Rule("C02.R5", "flows", "the pooled entry point copies the input and decodes its own buffer", 2)
+	r.Rule("C02.R5", "flows+paths", "the pooled entry point copies the input and decodes its own buffer; a decoder stores every header field of the destination on every successful return", 9)
 	r.Rule("C02.R6", "tables+absint", "option registries equal the RFC tables and are single-writer; illegal lengths skipped exactly outside [Min,Max]; registry selected by the frame code", 14)
 
 	sums := c02Summaries()
@@ -96,6 +96,7 @@ func runC02(e *Env) {
 	}
 	if e.want("C02.R2") {
 		c02Progress(e, sums)
+		cursorLinearity(e, "C02.R2")
 	}
 	if e.want("C02.R3") {
 		c02HeaderAbsint(e)
@@ -107,6 +108,7 @@ func runC02(e *Env) {
 	}
 	if e.want("C02.R5") {
 		c02NoAlias(e)
+		checkDecoderAssignsAll(e, "C02.R5")
 	}
 	if e.want("C02.R6") {
 		c02Registry(e)
@@ -728,5 +730,108 @@ func c02Registry(e *Env) {
 			}
 		})
 		e.R.Check(sawMin && sawMax, rule, "message.Option.Unmarshal:length-window", e.fpos(f), "skips when len < MinLen or len > MaxLen (strict comparisons: the bounds themselves are legal)", "the legal-length window is no longer [MinLen, MaxLen] with both bounds inclusive")
+	}
+}
+
+// checkDecoderAssignsAll: a decoder writes into a destination that may be a recycled message (the de-duplication replay decodes
+// the cached reply into the response that already carries the request's token). Every header field it is responsible for must
+// be stored on every successful return – a field assigned only "when present" keeps the destination's old value.
+func checkDecoderAssignsAll(e *Env, rule string) {
+	for _, it := range []struct {
+		fn     string
+		param  int
+		fields []string
+	}{
+		{"udp/coder.Coder.Decode", 2, []string{"Payload", "Code", "Token", "Type", "MessageID"}},
+		{"tcp/coder.Coder.DecodeWithHeader", 3, []string{"Code", "Token"}},
+	} {
+		f := e.fn(rule, it.fn)
+		if f == nil || it.param >= len(f.Params) {
+			continue
+		}
+		dst := f.Params[it.param]
+		for _, fld := range it.fields {
+			field := fld
+			q := &core.PathQuery{Fn: f,
+				Stop: func(in ssa.Instruction) bool {
+					st, ok := in.(*ssa.Store)
+					if !ok {
+						return false
+					}
+					fa, isFA := st.Addr.(*ssa.FieldAddr)
+					if !isFA || core.Resolve(fa.X) != ssa.Value(dst) {
+						return false
+					}
+					_, name, okF := core.FieldOf(fa)
+					return okF && name == field
+				},
+				Target: func(in ssa.Instruction) bool {
+					ret, ok := in.(*ssa.Return)
+					return ok && len(ret.Results) > 0 && core.IsNilConst(core.RetVal(ret, len(ret.Results)-1))
+				}}
+			w := q.Find()
+			e.R.Check(w == nil, rule, it.fn+":assigns "+field, e.fpos(f), "m."+field+" is stored on every successful return", "a successful decode can leave m."+field+" of the (possibly recycled) destination untouched: "+e.trace(w))
+		}
+	}
+}
+
+// cursorLinearity: inside a decoder, two sub-parsers whose consumed-byte counts are both used must not be given the same
+// cursor value – the second has to start where the first stopped (cursor[count:]). Passing the same slice twice parses the
+// first field's bytes again as the second field.
+func cursorLinearity(e *Env, rule string) {
+	sums := c02Summaries()
+	n := 0
+	for _, q := range c02Decoders {
+		f := e.P.Func(q)
+		if f == nil {
+			continue
+		}
+		for _, g := range append(core.WithAnon(f), core.AbsorbedInto(f)...) {
+			type pc struct {
+				c      *ssa.Call
+				cursor ssa.Value
+				used   bool
+			}
+			var calls []pc
+			core.InstrsOwn(g, func(in ssa.Instruction) {
+				c, ok := in.(*ssa.Call)
+				if !ok {
+					return
+				}
+				sm, isSum := sums[core.CalleeName(c)]
+				if !isSum || sm.Param >= core.NArgs(c) {
+					return
+				}
+				used := false
+				for _, r := range core.Referrers(c) {
+					if ex, isEx := r.(*ssa.Extract); isEx && ex.Index == sm.Ret {
+						for _, r2 := range core.Referrers(ex) {
+							if _, isDbg := r2.(*ssa.DebugRef); !isDbg {
+								used = true
+							}
+						}
+					}
+				}
+				calls = append(calls, pc{c, core.Unwrap(core.Arg(c, sm.Param)), used})
+			})
+			bad := ""
+			for i, a := range calls {
+				for j, b := range calls {
+					if i == j || !a.used || !b.used || a.cursor != b.cursor {
+						continue
+					}
+					if reachableFrom(g, a.c, b.c) {
+						bad = fmt.Sprintf("%s at %s and %s at %s are both given the same cursor although both counts are used: the second re-parses the first one's bytes", shortType(core.CalleeName(a.c)), e.pos(a.c), shortType(core.CalleeName(b.c)), e.pos(b.c))
+					}
+				}
+			}
+			if len(calls) >= 2 {
+				n++
+				e.R.Check(bad == "", rule, core.FnName(g)+":cursor-linear", e.fpos(g), fmt.Sprintf("%d sub-parser calls, each on its own cursor value", len(calls)), bad)
+			}
+		}
+	}
+	if n == 0 {
+		e.R.Undecided(rule, "decoders:cursor-linear", "-", "no decoder with two sub-parser calls found")
 	}
 }
